@@ -4,5 +4,6 @@ set -e
 cd "$(dirname "$0")"
 PYTHONPATH=/repo /venv/bin/python harness/gen_tables.py
 PYTHONPATH=/repo /venv/bin/python harness/py2lean.py
+PYTHONPATH=/repo /venv/bin/python harness/g4_tables.py
 cd lean
 lake build Rtamt driver RtamtProofs
